@@ -371,6 +371,11 @@ class Gen:
         if self.clip_ids and rng.random() < 0.2 and not at:
             at += ' clip-path="url(#%s)"' % rng.choice(self.clip_ids)
         self.clip_ids.append(i)
+        if rng.random() < 0.2:
+            # clip-rule on the clipPath itself is inherited by the children that do not set their own
+            at += ' clip-rule="%s"' % rng.choice(["evenodd", "evenodd", "nonzero"])
+            if rng.random() < 0.7:
+                kids = '<path d="M10,10 H90 V90 H10 Z M30,30 H70 V70 H30 Z"/>' + kids
         return '<clipPath id="%s"%s>%s</clipPath>' % (i, at, kids)
 
     def document(self):
